@@ -72,18 +72,28 @@ theorem genChainInplace_eq (dir : Dir) (ms : List Nat) (b : Nat) :
     genChainInplace dir ms b = chainAdd dir ms b := by
   cases dir <;> rfl
 
-/-- `TransformChain._apply` (`reduce` over `self.transforms`) is `applyMembers`, the fold
+/-- the left fold both spellings of `TransformChain._apply` come to (`functools.reduce` with a lambda, or an explicit
+`for` loop): the running point is threaded through the members, a member that cannot be applied ends it -/
+theorem foldl_bind_applyMembers (g : Nat → Pt → Option Pt) (ms : List Nat) (o : Option Pt) :
+    ms.foldl (fun acc m => acc.bind (g m)) o = o.bind (applyMembers g ms) := by
+  induction ms generalizing o with
+  | nil => cases o <;> rfl
+  | cons m ms ih =>
+    rw [List.foldl_cons, ih]
+    cases o with
+    | none => rfl
+    | some x => simp only [Option.bind_some, applyMembers]
+
+/-- `TransformChain._apply` (a left fold over `self.transforms`, however it is spelled) is `applyMembers`, the fold
 `applyRef` — and by `applyRef_eq_flat` the application of the flattened leaves — is made of -/
 theorem genChainApply_eq (g : Nat → Pt → Option Pt) (ms : List Nat) (x : Pt) :
     genChainApply g ms x = applyMembers g ms x := by
+  have h := foldl_bind_applyMembers g ms (some x)
+  simp only [Option.bind_some] at h
   unfold genChainApply
-  induction ms generalizing x with
-  | nil => rfl
-  | cons m ms ih =>
-    simp only [pyReduce, applyMembers]
-    cases g m x with
-    | none => rfl
-    | some y => exact ih y
+  first
+    | exact h
+    | (simp only [MenpoModel.Py.forLoop_eq_foldl]; exact h)
 
 theorem sup_fam (c : HCls) :
     supplier MT (.fam c) .compose_before = some .ComposableTransform ∧
